@@ -160,7 +160,7 @@ func TestC13QUIC(t *testing.T) {
 	meta := vrun.Meta{
 		Property: "C13", Workload: "TestC13QUIC", Total: len(grid) * variants,
 		Rule: "case = (type {per-message, context-takeover} x level 0..9, variant) over loopback UDP, one QUIC connection per case, ephemeral self-signed certificate. Even variants: one writer per side; odd: 1-8 " +
-			"concurrent writers per side. Message sequences as in TestC13MemGrid (window bits drawn per case; big = 1 MiB quick / 4 MiB thorough). The accepting side's quic.Connection is wrapped so that " +
+			"concurrent writers per side (every fourth variant: both ends also send datagrams through the transport's unreliable side meanwhile). Message sequences as in TestC13MemGrid (window bits drawn per case; big = 1 MiB quick / 4 MiB thorough). The accepting side's quic.Connection is wrapped so that " +
 			"the raw bytes of both unidirectional streams are kept; the independent decoder cuts them at the length prefixes and inflates each frame. " +
 			"Non-trivial: all messages delivered both ways, frames cut = messages, and for level > 0 at least one frame differs from its payload (compression really negotiated). Distinct: grid point x variant x size/content classes.",
 		Assumptions: streamAssumptions,
@@ -283,7 +283,51 @@ func runQUICCase(c *vrun.Case, sp streamPoint, variant int) vrun.Result {
 		return inconcl("accepting side did not receive the dialled parameters")
 	}
 
+	// every fourth variant: both ends also send datagrams through the transport's unreliable side while the
+	// reliable writers run (the datagram path shares the transport's encoder and counters; the byte counters are not
+	// compared in this variant)
+	noise := variant%4 == 3
+	stopNoise := make(chan struct{})
+	var noiseWG sync.WaitGroup
+	if noise {
+		vname += "+datagrams"
+		desc = describe("quic", gp, vname, p)
+		for side, tr := range []transport.Transport{client, server} {
+			u, ok := tr.AsUnreliable()
+			if !ok {
+				continue
+			}
+			nr := rand64(c.Seed + int64(side))
+			noiseWG.Add(1)
+			go func() {
+				defer noiseWG.Done()
+				buf := make([]byte, 3000)
+				for {
+					select {
+					case <-stopNoise:
+						return
+					default:
+					}
+					n := 1 + nr.Intn(len(buf)-1)
+					for i := 0; i < n; i++ {
+						buf[i] = byte(nr.Intn(7)) // compressible
+					}
+					_ = u.Write(buf[:n])
+					time.Sleep(time.Duration(nr.Intn(300)) * time.Microsecond)
+				}
+			}()
+			go func() { // drain what arrives (errors end the loop: the transport was closed)
+				for {
+					if _, err := u.Read(); err != nil {
+						return
+					}
+				}
+			}()
+		}
+	}
 	ex := exchange([2]transport.Transport{client, server}, p, rng, 4*time.Minute)
+	close(stopNoise)
+	noiseWG.Wait()
 	if r, done := exchangeFailures(ex, prefix, concurrent, true, desc); done {
 		return r
 	}
@@ -295,9 +339,9 @@ func runQUICCase(c *vrun.Case, sp streamPoint, variant int) vrun.Result {
 	outFrames, _, outErr := splitLengthPrefixed(rawOut)
 	dirs := []*direction{
 		{from: 0, sent: p[0], recv: ex.reads[1], frames: inFrames, haveTap: true, framedLen: uint64(len(rawIn)), tapErr: inErr,
-			tx: client.TxBytesCounterValue(), rx: server.RxBytesCounterValue(), haveTx: true, haveRx: true},
+			tx: client.TxBytesCounterValue(), rx: server.RxBytesCounterValue(), haveTx: !noise, haveRx: !noise},
 		{from: 1, sent: p[1], recv: ex.reads[0], frames: outFrames, haveTap: true, framedLen: uint64(len(rawOut)), tapErr: outErr,
-			tx: server.TxBytesCounterValue(), rx: client.RxBytesCounterValue(), haveTx: true, haveRx: true},
+			tx: server.TxBytesCounterValue(), rx: client.RxBytesCounterValue(), haveTx: !noise, haveRx: !noise},
 	}
 	return finishCase(desc, prefix, gp, eff, vname, writers, concurrent, dirs)
 }
